@@ -104,6 +104,10 @@ def segy_source(draw, geom="regular", max_dim=12, max_ns=40, fields=True, allow_
     if geom in ("regular", "irregular"):
         if dims is not None:
             d["n_il"], d["n_xl"] = dims
+        elif draw(st.integers(0, 7)) == 0:
+            # a grid of 128*k traces: every footer array is then a whole number of 512-byte pages
+            d["n_il"], d["n_xl"] = draw(st.sampled_from([(8, 16), (16, 8), (4, 32), (32, 4), (2, 64), (64, 2), (16, 16)]))
+            d["ns"] = min(d["ns"], 16)
         else:
             d["n_il"] = draw(st.integers(2, max_dim))
             d["n_xl"] = draw(st.integers(2, max_dim))
@@ -134,7 +138,7 @@ def segy_source(draw, geom="regular", max_dim=12, max_ns=40, fields=True, allow_
                         break
             d["keep"] = sorted(keep)
     else:
-        d["n_tr"] = draw(st.integers(2, max_dim * max_dim))
+        d["n_tr"] = draw(st.one_of(st.integers(2, max_dim * max_dim), st.integers(2, max_dim * max_dim), st.sampled_from([127, 128, 129, 256])))
         d["variant"] = draw(st.sampled_from(["zero", "single_il", "single_xl"]))
         d["line"] = [draw(st.integers(1, 3000)), draw(st.integers(-50, 3000)), draw(st.sampled_from([1, 2, 5]))]
     d["fields"] = draw(header_fields(allow_mid=allow_mid)) if fields else {}
